@@ -16,7 +16,7 @@ def run(tier):
     wrong, drift = encconf.conformance(chk, "c128", quick)
     for c in wrong + drift:
         for api in ("Encode", "EncodeWithoutChecksum"):
-            jobs.append(gen.enc("c128", "".join(map(chr, c)).encode("utf-8"), (), api=api))
+            jobs.append(gen.enc("c128", "".join(map(chr, c["content"])).encode("utf-8"), (), api=api))
     evs, extras = onedim.judge(chk, drive, jobs, "Trace1D", "Trace1D.cfg", 10 if quick else 16, wanted)
     seen = set()
     for x in extras:
